@@ -57,9 +57,10 @@ extern "C" unsigned vf_live_heap(void);
 // An ordinary eventpp Threading policy whose members call vf_* hooks. In the engine every hook is a
 // scheduling point; natively they drive the ucontext scheduler of vf_native.cpp.
 struct VMutex {
-	void lock() { vf_mutex_lock(this); }
-	void unlock() { vf_mutex_unlock(this); }
-	char pad;
+	// the stores make a lock/unlock of a destroyed mutex a memory error (engine: use after free; native: ASan)
+	void lock() { vf_mutex_lock(this); pad = 1; }
+	void unlock() { pad = 0; vf_mutex_unlock(this); }
+	volatile char pad;
 };
 
 template <typename T>
